@@ -82,7 +82,10 @@ def cases_for(prop, tier, seed):
                 # several handles (clones, Using guards) of ONE Subscription: the teardown runs at most once
                 [gen.case("C05-handles-%d" % n, [["subhandles", str(n)]]) for n in range(6)])
     if prop == "C06":
-        return (gen.fam_teardown(g, "C06-td", 100 * k) + gen.fam_ending_closures(g, "C06-ec") + [c for c in gen.fam_combinators(g, "C06-comb", 60 * k) if "flat_map" in c or "(unsub" in c] +
+        return (gen.fam_teardown(g, "C06-td", 100 * k) + gen.fam_ending_closures(g, "C06-ec") +
+                [gen.case("C06-fg-%s-%d" % (kind, t), [["subject", "a", "plain"], ["conn", "x", kind, mk(["ref", "a"])], ["sub", ["ref", "x"], gen.NOREACT],
+                                                       ["hnext", "a", "1"], ["forget", "x"], ["hnext", "a", "2"], ["unsub", "0"], ["hnext", "a", "3"]])
+                 for kind in ("ref_count", "replay") for t, mk in enumerate((lambda q: q, lambda q: ["map", "inc", q]))] + [c for c in gen.fam_combinators(g, "C06-comb", 60 * k) if "flat_map" in c or "(unsub" in c] +
                 # the shared source of a connectable is a source subscribed on the subscribers' behalf: it must stop when the last one left
                 [c for c in gen.fam_connectables(g, "C06-conn", 40 * k) + gen.fam_conn_reentrant(g, "C06-cre", 0) if "ref_count" in c or "replay" in c])
     if prop == "C07":
@@ -94,13 +97,21 @@ def cases_for(prop, tier, seed):
                 [c for c in gen.fam_reentrant(g, "C10-re", 0) if "(sub (ref a) (react" in c] +
                 # a LATE subscriber that pushes into the subject while it is still being handed the history
                 [gen.case("C10-lp-%s-%d-%d" % (kind, idx, j), [["subject", "a", kind] + (["0"] if kind == "behavior" else []), ["sub", ["ref", "a"], gen.NOREACT]] + pre +
-                          [["sub", ["ref", "a"], ["react", [str(idx), ["hnext", "a", "9"]]]], ["hnext", "a", "5"], ["sub", ["ref", "a"], gen.NOREACT], ["hcomplete", "a"]])
+                          [["sub", ["ref", "a"], ["react", [str(idx), ["hnext", "a", "9"]]]], ["hnext", "a", "5"], ["sub", ["ref", "a"], gen.NOREACT], ["hcomplete", "a"],
+                           ["sub", ["ref", "a"], gen.NOREACT], ["hnext", "a", "7"], ["sub", ["ref", "a"], gen.NOREACT]])
                  for kind in ("replay", "behavior", "plain", "async") for idx in (0, 1, 2)
                  for j, pre in enumerate(([], [["hnext", "a", "1"]], [["hnext", "a", "1"], ["hnext", "a", "2"], ["hnext", "a", "3"]]))])
     if prop == "C13":
         return (gen.fam_connectables(g, "C13-conn", 150 * k) + gen.fam_conn_reentrant(g, "C13-re", 0) + gen.fam_late_unsub(g, "C13-late") +
                 # a LATE subscriber of replay() / ref_count() / publish() that makes the hot source emit while it is still being
                 # handed the history: every subscriber still gets every item once
+                # the caller drops the connectable (and every Observable made from it) and keeps only the Subscriptions: the last
+                # subscriber leaving still stops the source
+                [gen.case("C13-fg-%s-%d-%d" % (kind, nsub, t), [["subject", "a", "plain"], ["conn", "x", kind, mk(["ref", "a"])]] +
+                          [["sub", ["ref", "x"], gen.NOREACT] for _ in range(nsub)] + [["hnext", "a", "1"], ["forget", "x"], ["hnext", "a", "2"]] +
+                          [["unsub", str(u)] for u in range(nsub)] + tail)
+                 for kind in ("ref_count", "replay") for nsub in (1, 2) for mk in (lambda q: q, lambda q: ["map", "inc", q])
+                 for t, tail in enumerate(([["hnext", "a", "3"]], [["hcomplete", "a"]]))] +
                 [gen.case("C13-lp-%s-%d-%d" % (kind, idx, j), [["subject", "a", "plain"], ["conn", "x", kind, ["ref", "a"]], ["sub", ["ref", "x"], gen.NOREACT]] +
                           ([["connect", "x"]] if kind == "publish" else []) + pre +
                           [["sub", ["ref", "x"], ["react", [str(idx), ["hnext", "a", "9"]]]], ["hnext", "a", "5"], ["sub", ["ref", "x"], gen.NOREACT], ["hcomplete", "a"]])
